@@ -151,7 +151,7 @@ type Frame struct {
 	call    *ssa.Call // call instruction in the caller awaiting the result (nil for entry)
 	visits  map[int]int
 	defers  []deferred
-	cutSeen map[int][]Value // loop header index -> phi values at first arrival
+	cutSeen map[int]map[int]*Term // loop header index -> reader positions at first arrival
 }
 
 type deferred struct {
@@ -242,7 +242,7 @@ func (st *State) clone() *State {
 		}
 		nf.defers = append([]deferred(nil), f.defers...)
 		if f.cutSeen != nil {
-			nf.cutSeen = map[int][]Value{}
+			nf.cutSeen = map[int]map[int]*Term{}
 			for k, v := range f.cutSeen {
 				nf.cutSeen[k] = v
 			}
